@@ -36,7 +36,7 @@ import (
 const (
 	sigBuilderGapBelow = "ack-ranges-not-ascending-gap-below-user-ack"
 	sigE2EGapBelow     = "e2e: AcknowledgementBatches sent not ascending (gap range below a user-acked offset)"
-	sigConfirmedParked = "record delivered again after its accept/reject was confirmed without error (acknowledgement piggybacked on a ShareFetch that returned no records)"
+	sigConfirmedParked = "record delivered again after its accept/reject was confirmed without error (acknowledgement piggybacked on a ShareFetch)"
 	sigDoubleRenew     = "final acknowledgement sent twice for one delivery (renew entry drained, terminal status set before the request was built)"
 )
 
